@@ -57,7 +57,8 @@ w('''//@ import dpf "github.com/lidofinance/dc4bc/fsm/state_machines/dkg_proposa
 // phase / status coupling: while a phase is awaited every participant is awaiting or confirmed in that phase
 //@ spec func awOf(s State) internal.DKGParticipantStatus = ite(s == dpf.StateDkgCommitsAwaitConfirmations, internal.CommitAwaitConfirmation, ite(s == dpf.StateDkgDealsAwaitConfirmations, internal.DealAwaitConfirmation, ite(s == dpf.StateDkgResponsesAwaitConfirmations, internal.ResponseAwaitConfirmation, internal.MasterKeyAwaitConfirmation)))
 //@ spec func okOf(s State) internal.DKGParticipantStatus = ite(s == dpf.StateDkgCommitsAwaitConfirmations, internal.CommitConfirmed, ite(s == dpf.StateDkgDealsAwaitConfirmations, internal.DealConfirmed, ite(s == dpf.StateDkgResponsesAwaitConfirmations, internal.ResponseConfirmed, internal.MasterKeyConfirmed)))
-//@ spec func invDkgPhase(f *FSM) bool = dkgAwait(f.currentState) ==> dkgPhaseOk(dkgM(f).payload, awOf(f.currentState), okOf(f.currentState))
+//   (needed where the table has no transition for the validator's cancel-by-error outcome: commits, deals, responses)
+//@ spec func invDkgPhase(f *FSM) bool = (f.currentState == dpf.StateDkgCommitsAwaitConfirmations || f.currentState == dpf.StateDkgDealsAwaitConfirmations || f.currentState == dpf.StateDkgResponsesAwaitConfirmations) ==> dkgPhaseOk(dkgM(f).payload, awOf(f.currentState), okOf(f.currentState))
 //@ spec func invDkg(f *FSM) bool = invDkgTable(f) && invDkgSig(f) && invDkgState(f) && invDkgWf(f) && invDkgInj(f) && invDkgPhase(f)
 //@ spec func dkgRejectNoop(f *FSM) bool = f.currentState == old(f.currentState) && (old(dkgM(f).payload.DKGProposalPayload) != nil ==> dkgViewsSame(dkgM(f)))
 
